@@ -856,6 +856,7 @@ func (x *Exec) callByContract(fi *FuncInfo, fc *FuncContract, call *ast.CallExpr
 	if rv := sig.Recv(); rv != nil {
 		if _, isPtr := rv.Type().(*types.Pointer); isPtr && !fc.Flags["readonly"] && !fc.Flags["pure"] && !fc.Flags["recvreadonly"] {
 			nv := x.fresh(rv.Name(), rv.Type())
+			x.inferredFieldFrame(fi, call, recv, nv, rv.Type(), env)
 			post.locals[rv.Name()] = nv
 			if recvExpr != nil {
 				x.assign(recvExpr, nv, env)
@@ -866,6 +867,9 @@ func (x *Exec) callByContract(fi *FuncInfo, fc *FuncContract, call *ast.CallExpr
 		p := sig.Params().At(i)
 		if _, isPtr := p.Type().Underlying().(*types.Pointer); isPtr && !fc.Flags["readonly"] && !fc.Flags["pure"] {
 			nv := x.fresh(p.Name(), p.Type())
+			if i < len(args) {
+				x.inferredFieldFrame(fi, call, args[i], nv, p.Type(), env)
+			}
 			post.locals[p.Name()] = nv
 			x.writeBackArg(call.Args[i], nv, env)
 		}
@@ -955,7 +959,10 @@ func (x *Exec) abstractCall(key string, fn *types.Func, sig *types.Signature, ca
 	if rv := sig.Recv(); rv != nil && recvExpr != nil && inMod {
 		if _, isPtr := rv.Type().(*types.Pointer); isPtr {
 			if isAddressable(recvExpr) {
-				x.assign(recvExpr, x.fresh("hv", x.cx.info.TypeOf(recvExpr)), env)
+				oldv := x.eval(recvExpr, env)
+				nv := x.fresh("hv", x.cx.info.TypeOf(recvExpr))
+				x.inferredFieldFrame(cfi, call, oldv, nv, x.cx.info.TypeOf(recvExpr), env)
+				x.assign(recvExpr, nv, env)
 			}
 		}
 	}
@@ -983,7 +990,11 @@ func (x *Exec) abstractCall(key string, fn *types.Func, sig *types.Signature, ca
 				if argPtr && isLibPointer(x.cx.info.TypeOf(a)) {
 					continue
 				}
-				x.writeBackArg(a, x.fresh("hv", x.cx.info.TypeOf(a)), env)
+				nv := x.fresh("hv", x.cx.info.TypeOf(a))
+				if prmPtr && i < len(args) {
+					x.inferredFieldFrame(cfi, call, args[i], nv, x.cx.info.TypeOf(a), env)
+				}
+				x.writeBackArg(a, nv, env)
 				if prmIface && isAddressable(a) && x.cx != nil {
 					// stored behind an interface by the callee: treat as escaped from here on
 					if x.cx.escaped == nil {
@@ -1054,5 +1065,46 @@ func (x *Exec) callsiteClauses(fn *types.Func, key string, call *ast.CallExpr, a
 			}
 		}
 		x.assert(env, "callsite:"+fn.Name()+"/"+clauseName(cs.Clause, i), "", sc.EvalBool(cs.Clause.Expr))
+	}
+}
+
+// inferredFieldFrame: the callee (and everything it can reach in the call graph) never writes some fields of the
+// struct behind a pointer it receives: those fields keep their values across the call (see frames.go).
+func (x *Exec) inferredFieldFrame(cfi *FuncInfo, call *ast.CallExpr, oldV, newV Term, t types.Type, env *Env) {
+	if cfi == nil || x.termMode || oldV.Sort != newV.Sort {
+		return
+	}
+	pt, ok := t.Underlying().(*types.Pointer)
+	if !ok {
+		return
+	}
+	named, ok := pt.Elem().(*types.Named)
+	if !ok {
+		return
+	}
+	st, ok := named.Underlying().(*types.Struct)
+	if !ok || x.P.ByName[named.Obj().Pkg().Name()] == nil {
+		return
+	}
+	// (callbacks: a callee that calls through a function value is taken to reach every function that contains a
+	// closure literal or is referenced as a value, see frames.go)
+	kept := 0
+	for i := 0; i < st.NumFields(); i++ {
+		f := st.Field(i)
+		if f.Name() == "_" || f.Embedded() {
+			continue
+		}
+		if x.P.MayWriteField(cfi, named.Obj(), f) {
+			continue
+		}
+		fo, ok1 := x.W.Field(oldV, f.Name())
+		fn, ok2 := x.W.Field(newV, f.Name())
+		if ok1 && ok2 && fo.Sort == fn.Sort {
+			x.W.AddFact(env.pc, Eq(fn, fo))
+			kept++
+		}
+	}
+	if kept > 0 {
+		x.W.Note(fmt.Sprintf("inferred frame: %d field(s) of %s not writable by %s or its callees keep their values", kept, named.Obj().Name(), cfi.Key))
 	}
 }
